@@ -119,7 +119,14 @@ pub fn c18f_sort_priority() {
     let cy = origin_class(false, yp, yt);
     note!("x flags plugin={} third={}: same-file priority {}, elsewhere {}; y flags plugin={} third={}: {}", xp, xt, p_same, p_other, yp, yt, py);
     check!("c18f.sort.same_file_first", p_same < py && p_same < p_other);
-    check!("c18f.sort.class_order", (c_other < cy) == (p_other < py) && (c_other == cy) == (p_other == py));
+    // A definition flagged BOTH plugin and third-party is not ranked by the property text: it must not come before the
+    // conftest class, nothing more is demanded of it. Everything else is ranked strictly by its origin class.
+    let x_both = xp && xt;
+    let y_both = yp && yt;
+    if !x_both && !y_both {
+        check!("c18f.sort.class_order", (c_other < cy) == (p_other < py) && (c_other == cy) == (p_other == py));
+    }
+    if !yp && !yt && x_both { check!("c18f.sort.both_flags_after_conftest", p_other > py); }
     check!("c18f.sort.single_digit", p_same <= 9 && p_other <= 9 && py <= 9);
     reach!("c18f.sort.end");
     std::mem::forget(x_same); std::mem::forget(x_other); std::mem::forget(y);
